@@ -46,6 +46,8 @@ func payloadOf(r resource.Resource) string {
 	switch x := r.(type) {
 	case *Res:
 		return x.spec.S
+	case interface{ Payload() string }:
+		return x.Payload()
 	default:
 		return "?"
 	}
